@@ -56,6 +56,22 @@ CLAIMS = {
   text="Static analysis of object-listing pagination on all paths: every listed entry passes the counter and the cnt>=MaxKeys test before the next one and nothing is listed after the bound; IsTruncated is only set together with NextMarker = last examined key, from which the handler derives the V2 token / V1 marker; the token is encoded and decoded with the same base64 alphabet and decode errors answer InvalidToken; the marker entry is skipped after Seek; non-paginating backends refuse a non-empty page before touching their store and the handler's retry/refusal protocol is exact; max-keys clamped, all three marker sources wired.",
   note="trusted: go/ssa. Not decided: completeness and strict ascent across pages, CommonPrefix once across pages (false today), termination.",
   tech="SSA reaches-avoiding (must-pass-through), guard dominance, constant/global identity (codec agreement), provenance slices", ref="DESIGN.md §4 C04"),
+ "C08": dict(
+  text="Static ordering/wiring analysis of upload rejection on all paths: no rejection can be returned by a handler after the storing call; every PutObject must consume and validate the whole input before its first mutation (memory, bolt: holds; fs backends truncate the destination first — known findings F14) and must enforce the declared size (fs backends do not — known findings F15); Content-MD5 is decoded, wired into the hashing reader that is the stream storage reads, compared at EOF with nothing in between, mismatch → BadDigest, malformed/empty → InvalidDigest; metadata size, key length and Content-Length are checked before storage; a rejected part leaves its slot untouched.",
+  note="trusted: go/ssa, ReadAll's contract checked structurally. Known findings F14-*/F15-* in known_findings.json. Not decided: 'unchanged' as value equality, failure at byte k of a real connection, MD5 arithmetic.",
+  tech="SSA reachability (never-after), checked-call dominance, provenance slices, guard-fact bounds", ref="DESIGN.md §4 C08"),
+ "C12": dict(
+  text="Static analysis of the aws-chunked decoder's accounting and wiring on all paths: every update of chunkRemain, of the returned count and of the remaining size moves by exactly result 0 of the inner Read of that step; chunkRemain is otherwise only the checked parsed chunk header; the slice handed to the transport is p[n:n+min(requested, left in chunk)]; every transport/framing error is returned at once; the decoder is selected by the streaming constant on the canonical header key, wraps r.Body, feeds the hashing reader, and the parsed non-negative decoded length is the size storage receives; backends enforce that size (fs: known findings F15); allocation from a hostile declared length is bounded. The chunk grammar itself is not decided.",
+  note="trusted: go/ssa; reviewed loop invariant for the two slice expressions (premise re-checked). Not decided: hex/CRLF/signature grammar, data-with-EOF readers, final chunk handling, payload byte equality.",
+  tech="SSA def-use pattern rules on loop phis and stores (accounting by delivered count), checked-call dominance, provenance slices", ref="DESIGN.md §4 C12"),
+ "C15": dict(
+  text="Static durability-discipline analysis of the persistent backends on all paths: every bolt mutation inside exactly one Update closure per operation whose commit error is returned, no no-sync option; persisted-schema agreement (every field read after decoding is written at every encoding site; fields exported/encodable); Metadata.Hash only ever computed from the object's bytes (violated by loadMeta's re-hash of the metadata filesystem — known finding F17); an object replaced only after the new content is complete (fs backends — known findings F14); no persist error dropped; command-line path flags reach the matching constructor; operations acknowledged only after close + saveMeta / commit.",
+  note="trusted: bbolt's commit = fsync, afero, go/ssa. Known findings F14-*, F17. Not decided: what survives kill -9 on a real filesystem, BSON/JSON value round trips, mod-time tolerance, legacy databases.",
+  tech="who-may-call / closure-context check (transaction discipline), schema writer⊇reader table, provenance slices with filesystem classes, checked-call dominance", ref="DESIGN.md §4 C15"),
+ "C17": dict(
+  text="Static decision of the bucket-name rule: create-bucket validates the very name it creates, obeys the validator, every rejection is InvalidBucketName (400); the validator's length guard accepts exactly 3..63 (guard structure evaluated for every length 0..100), with whole-name pattern, IP reject and a per-label test that cannot skip a label; the fs backend lists only validating directory entries; and LANGUAGE EQUALITY: the automaton of (length set ∧ pattern on the name ∧ pattern on every label, with regexp.MatchString's unanchored semantics) built from the regular-expression constant equals the automaton of the property's rules, by product construction over a representative alphabet for all lengths ≤ 65 (≈3k product states).",
+  note="trusted: regexp/syntax's compiled program as the meaning of the pattern, the representative alphabet {a,m,z,0,5,9,-,.,A,_,/}; net.ParseIP is an uninterpreted atom on both sides. Not decided: ParseIP semantics, per-backend re-validation.",
+  tech="guard evaluation over a finite integer domain + regular-language equivalence by automata product (abstract interpretation of a constant), dominance", ref="DESIGN.md §4 C17"),
 }
 
 NOT_APPLICABLE = {
